@@ -256,3 +256,24 @@ func H_C10_cexp_tok(which, d int) {
 	}
 	vReach("end")
 }
+
+// H_C10_qint: q with an integer part of d digits (leading zeros, huge values)
+// and one decimal: valid only for 0.D and 1.0; anything else leaves Q unset
+// and flags the parameter.
+func H_C10_qint(d int) {
+	ip := vBytes(d)
+	f := vByte()
+	vAssume(vAnd(vAllDigits(ip), f >= '0' && f <= '9'))
+	buf := append([]byte("<a>;q="), ip...)
+	buf = append(buf, '.', f)
+	buf = append(buf, '\r', '\n', 'X')
+	var pf PFromBody
+	_, e := ParseOneContact(buf, 0, &pf)
+	vAssert("accepted", e == 0)
+	u, sat := refDec(ip, 1)
+	valid := vAnd(!sat, vOr(u == 0, f == '0'))
+	want := u*1000 + uint64(f-'0')*100
+	vAssert("q-exact-when-valid", vOr(!valid, uint64(pf.Q) == want))
+	vAssert("q-flagged-when-invalid", vOr(valid, vAnd(pf.Q == 0, pf.ParamErr != 0)))
+	vReach("end")
+}
